@@ -4,7 +4,7 @@
    configured key set whose type fits, whose use permits signatures and whose
    key id is consistent with the header; the claims handed back are the payload
    that signature covers; kid-less ambiguity is reported, not guessed." *)
-From OIDC Require Import Lib C02_Jws C01_Verifier C02_Verifiers C02_Ground.
+From OIDC Require Export Lib C02_Jws C01_Verifier C02_Verifiers C02_Ground.
 
 Inductive input :=
 | IFind (kid use alg : string) (keys : list jwk)
